@@ -1625,6 +1625,18 @@ impl<'a, const C: usize, const R: usize, T: 'a + Copy + std::fmt::Debug> Layout<
             }
         }
     }
+    /// The most recent event for the coordinate that was registered with `event` and is still
+    /// waiting to be processed, if there is one. Until it is processed, `states` does not show
+    /// its effect yet.
+    pub fn last_queued_event(&self, coord: KCoord) -> Option<Event> {
+        (self.chords_v2.as_ref())
+            .and_then(|ch| ch.last_queued_event_chv2(coord))
+            .or_else(|| {
+                (self.queue.iter().rev())
+                    .map(|q| q.event())
+                    .find(|ev| ev.coord() == coord)
+            })
+    }
     /// Register a key event.
     pub fn event(&mut self, event: Event) {
         if let Event::Press(x, y) = event {
